@@ -25,7 +25,7 @@ from yowsup.profile.profile import YowProfile
 ID = "C16"
 LEVEL = "exploration"
 RULE = ("generated histories of 3-25 events over {connect request (established / refused; the server's handshake reply delivered at "
-        "once or held back so that the connection is still being established when the next event arrives), peer close, disconnect "
+        "once or held back so that the connection is still being established when the next event arrives), a server reply that fails authentication (optionally with one more frame behind it in the same read), peer close, disconnect "
         "request (only while up or being established), server reply, success, (failure, stream error and peer close optionally with the first "
         "bytes of a further, never completed frame in the same read), failure, stream error (conflict / ack / xml-not-well-formed, with or without text), keep-alive tick (virtual "
         "clock, one second at a time), pong for a chosen outstanding ping, late pong for a ping of an earlier connection, application send (also one that stays unwritten in the dispatcher's buffer before the peer resets the connection), loop runs} with options {reconnect on "
